@@ -384,6 +384,8 @@ class PackAllLoose(CUnit):
     timeout_ms = 8000
     parallel = True
     full = False
+    variants = 'all'
+    tier = 'thorough'
     loops = {
         0: Loop(0, _pal_loop_chunks, havoc=_pal_havoc_existing, fingerprint='chunk in chunk_iterator(loose_objects, size=self._IN_SQL_MAX_LENGTH)'),
         1: Loop(1, _pal_loop_rows, havoc=_pal_havoc_existing, fingerprint='res in session.execute(stmt)'),
@@ -397,9 +399,14 @@ class PackAllLoose(CUnit):
         c = mk_container(vc, I, w, session='open', hash_types=('sha256',))
         db = SQL.db_of_world(w, vc)
         cm = I.prog.classes['utils:CompressMode'].attrs
-        which = vc.choose(5, label='compress')
-        compress = vc.fresh_bool('compress') if which == 0 else cm[('NO', 'YES', 'KEEP', 'AUTO')[which - 1]]
-        a = NS(self=c, compress=compress, validate_objects=vc.fresh_bool('validate_objects'), do_fsync=vc.fresh_bool('do_fsync'),
+        if self.variants == 'all':
+            which = vc.choose(5, label='compress')
+            compress = vc.fresh_bool('compress') if which == 0 else cm[('NO', 'YES', 'KEEP', 'AUTO')[which - 1]]
+            validate = vc.fresh_bool('validate_objects')
+        else:
+            # every-change variant: compress given as a bool (both values), objects validated (the default)
+            compress, validate = vc.fresh_bool('compress'), True
+        a = NS(self=c, compress=compress, validate_objects=validate, do_fsync=vc.fresh_bool('do_fsync'),
                callback=None, clean_loose_per_pack=vc.fresh_bool('clean_loose_per_pack'))
         return a
 
@@ -480,4 +487,14 @@ class PackAllLooseFrame(PackAllLoose):
     timeout_ms = 20000
 
 
-UNITS += [PackAllLoose(), PackAllLooseFrame()]
+class PackAllLooseQuick(PackAllLoose):
+    """The every-change subset of the parameter space (compress as a bool, validate_objects=True; do_fsync and
+    clean_loose_per_pack arbitrary). The complete parameter space is the thorough-tier unit."""
+    mode = 'defaults'
+    variants = 'bool'
+    tier = 'quick'
+    props = ('C05', 'C06')          # every-change runs: only under the two crash properties (cost: ~9 minutes on 14 cores)
+    verify_only = True
+
+
+UNITS += [PackAllLooseQuick(), PackAllLoose(), PackAllLooseFrame()]
